@@ -286,7 +286,86 @@ def rule_inactive(r):
             "non-dispersible parameter: value, [value], [1.0]", gw.lineno)
 
 
+def rule_data(r):
+    """Data objects: mask polarity (True/non-zero = excluded, built from NaN data), q limits spanning the data."""
+    d = pf.lib("data")
+    DF = "sasmodels/data.py"
+    for cname, yname, xname in (("Data1D", "y", "x"), ("Data2D", "z", "x")):
+        init = d.func(cname + ".__init__")
+        m = [st for st in pf.walk_stmts(init) if isinstance(st, ast.Assign) and pf.unparse(st.targets[0]) == "self.mask"]
+        ok = False
+        if m and isinstance(m[0].value, ast.IfExp):
+            v = m[0].value
+            ok = pf.unparse(v.body) == "np.isnan(%s)" % yname and pf.unparse(v.test) == "%s is not None" % yname
+            alt = v.orelse.body if isinstance(v.orelse, ast.IfExp) else v.orelse
+            ok = ok and "zeros_like" in pf.unparse(alt)
+        r.check(ok, DF, cname + ".__init__", pf.unparse(m[0])[:90] if m else "self.mask", m[0].lineno if m else init.lineno,
+                "mask is True exactly where the data are NaN (excluded), all False without data")
+    i1 = d.func("Data1D.__init__")
+    t = pf.unparse(i1)
+    r.check("self.qmin = self.x.min() if self.x is not None else np.nan" in t and "self.qmax = self.x.max() if self.x is not None else np.nan" in t,
+            DF, "Data1D.__init__", "qmin, qmax = x.min(), x.max()", i1.lineno, "default limits keep every point")
+    i2 = d.func("Data2D.__init__")
+    t = pf.unparse(i2)
+    lo = [st for st in pf.walk_stmts(i2) if isinstance(st, ast.Assign) and pf.unparse(st.targets[0]) == "self.qmin"]
+    hi = [st for st in pf.walk_stmts(i2) if isinstance(st, ast.Assign) and pf.unparse(st.targets[0]) == "self.qmax"]
+    r.check(bool(lo) and (pf.const_value(lo[0].value) or 1) <= 1e-10 and bool(hi) and pf.unparse(hi[0].value) in ("np.inf", "inf"), DF,
+            "Data2D.__init__", "qmin ~ 0, qmax = inf", i2.lineno, "default limits keep every pixel")
+    r.check("self.q_data = np.sqrt(self.qx_data ** 2 + self.qy_data ** 2)" in t, DF, "Data2D.__init__", "q_data = sqrt(qx^2 + qy^2)", i2.lineno)
+    bs = d.func("set_beam_stop")
+    t = pf.unparse(bs)
+    r.check("data.mask = data.x < radius" in t and "data.mask |= data.x >= outer" in t, DF, "set_beam_stop",
+            "1-D beam stop masks q < radius (and q >= outer)", bs.lineno, "mask True = excluded, the polarity _interpret_data assumes")
+
+
+def rule_sasview_entry(r):
+    """The SasView-style entry points hand (qx, qy) on in that order, and the hidden/multiplicity handling names the right entries."""
+    from .. import nf
+    import sympy as sp
+    sv = pf.lib("sasview_model")
+    run = sv.func("SasviewModel.run")
+    calls = [c for c in pf.calls_in(run) if pf.call_name(c) == "self.calculate_Iq" and len(c.args) == 2]
+    ok = False
+    if calls:
+        env = {}
+        a0 = nf.py_expr(calls[0].args[0].elts[0], env)
+        a1 = nf.py_expr(calls[0].args[1].elts[0], env)
+        q, phi = nf.sym("q"), nf.sym("phi")
+        ok = nf.equal(a0, q * sp.cos(phi)) and nf.equal(a1, q * sp.sin(phi))
+    r.check(ok, SV, "SasviewModel.run", "calculate_Iq([q cos(phi)], [q sin(phi)])", run.lineno, "polar input converted to (qx, qy)")
+    tgt = [st for st in pf.walk_stmts(run) if isinstance(st, ast.Assign) and pf.unparse(st.value) == "x"]
+    r.check(bool(tgt) and pf.unparse(tgt[0].targets[0]).strip("()") == "q, phi", SV, "SasviewModel.run", "q, phi = x", run.lineno)
+    rxy = sv.func("SasviewModel.runXY")
+    calls = [c for c in pf.calls_in(rxy) if pf.call_name(c) == "self.calculate_Iq" and len(c.args) == 2]
+    r.check(bool(calls) and [pf.unparse(a) for a in calls[0].args] == ["[x[0]]", "[x[1]]"], SV, "SasviewModel.runXY",
+            "calculate_Iq([x[0]], [x[1]])", rxy.lineno)
+    ev = sv.func("SasviewModel.evalDistribution")
+    t = pf.unparse(ev)
+    r.check(("(qx, qy) = qdist" in t or "qx, qy = qdist" in t) and "self.calculate_Iq(qx, qy)" in t and "self.calculate_Iq(qdist)" in t, SV,
+            "SasviewModel.evalDistribution", "[qx, qy] -> calculate_Iq(qx, qy); array -> calculate_Iq(q)", ev.lineno)
+    ci = sv.func("SasviewModel._calculate_Iq")
+    t = pf.unparse(ci)
+    r.check("q_vectors = [np.asarray(qx), np.asarray(qy)]" in t and "q_vectors = [np.asarray(qx)]" in t, SV, "SasviewModel._calculate_Iq",
+            "q_vectors = [qx, qy] | [qx]", ci.lineno, "2-D iff qy is given")
+    r.check("calculator(call_details, values, cutoff=self.cutoff, magnetic=is_magnetic)" in t, SV, "SasviewModel._calculate_Iq",
+            "kernel called with this model's cutoff and the magnetic flag", ci.lineno)
+    # hidden parameters of multiplicity models: entries beyond the control value
+    mi = pf.lib("modelinfo")
+    gh = mi.func("ModelInfo.get_hidden_parameters")
+    t = pf.unparse(gh)
+    r.check("for k in range(control + 1, p.length + 1)" in t and "p.id + str(k)" in t, "sasmodels/modelinfo.py", "ModelInfo.get_hidden_parameters",
+            "hidden = name<k> for k in control+1 .. length", gh.lineno, "entries 1..control stay visible")
+    r.check("hidden.update((base + '_M0', base + '_mtheta', base + '_mphi'))" in t, "sasmodels/modelinfo.py", "ModelInfo.get_hidden_parameters",
+            "magnetic parameters of hidden SLD entries are hidden too", gh.lineno)
+    gd = mi.func("ParameterTable._get_defaults")
+    t = pf.unparse(gd)
+    r.check("defaults[p.id] = p.default" in t and "defaults['%s%d' % (p.id, k)] = p.default" in t and "for k in range(1, p.length + 1)" in t,
+            "sasmodels/modelinfo.py", "ParameterTable._get_defaults", "defaults keyed by expanded names", gd.lineno)
+
+
 RULES = [
+    ("R-C10-data", 6, "data objects: mask polarity and default limits", rule_data),
+    ("R-C10-sasview-entry", 9, "SasView entry points route (qx, qy) and hidden parameters correctly", rule_sasview_entry),
     ("R-C10-inactive", 9, "inactive distributions agree across interfaces", rule_inactive),
     ("R-C10-unused", 14, "unknown-name refusal post-dominates consumption in three interfaces", rule_unused),
     ("R-C10-suffix", 10, "dispersity suffix/default tables agree", rule_suffix),
